@@ -44,6 +44,13 @@ ViolatedKw(o) == LET sc == Doc.schemas[o.si]
                  IF d.sk # "schema" THEN {}
                  ELSE {k \in DOMAIN d \ {"sk", "nullable", "exclMin", "exclMax"} :
                          ValidD(sc.defs, RestrictTo(d, KwKeys(k) \cup {k}), o.value, "request", sc.dia) = "F"}
+(* where the configured string restrictions are broken: <<"txt", part, "nul" | "codec">> *)
+PartText(c, p) == IF p = "body" THEN (IF c.hasBody THEN AllText(c.body) ELSE {}) ELSE AllText(c.parts[p])
+OutsideCodec(op, x) == \/ (op.cfg.codec = "ascii" /\ x > 127)
+                       \/ (op.cfg.codec = "latin-1" /\ x > 255)
+                       \/ (op.cfg.codec = "utf-8" /\ x >= 55296 /\ x <= 57343)
+TextDetail(op, c) == {<<"txt", p, "nul">> : p \in {p \in Parts : ~op.cfg.allow_x00 /\ 0 \in PartText(c, p)}}
+                     \cup {<<"txt", p, "codec">> : p \in {p \in Parts : \E x \in PartText(c, p) : OutsideCodec(op, x)}}
 NoWitness(o) == LET sc == Doc.schemas[o.si] IN        \* no value of the bounded universe satisfies the declared schema
                 ~BodySat([defs |-> sc.defs, dia |-> sc.dia], [schema |-> sc.schema])
 (* which keywords of a declared parameter / body schema reject the observed value on their own: <<"kw", part, keyword>> *)
@@ -70,6 +77,7 @@ Detail(o, vs) ==
     [] o.kind = "case" -> {<<p, vs[p], o.c.labels[p]>> : p \in {p \in Parts : Present(o.c, p) \/ o.c.labels[p] # "none" \/ vs[p] = "F"}}
                           \cup {<<"case", "-", o.c.labels.case>>}
                           \cup (IF o.prop = "C03" THEN {} ELSE KwDetail(Doc.ops[o.opi], o.c, vs))
+                          \cup (IF o.prop = "C01" THEN TextDetail(Doc.ops[o.opi], o.c) ELSE {})
     [] OTHER -> {}
 Definite(o, vs) ==
   CASE o.kind = "value" -> o.exempt \/ ValidOf(o) # "U"
